@@ -19,7 +19,7 @@ func newSim(cfg Cfg, seed int64) *Sim {
 	s := &Sim{cfg: cfg, rng: rand.New(rand.NewSource(seed)), parked: map[string]string{}, gates: map[string]chan struct{}{},
 		roles: map[uint64]string{}, entIDs: map[any]int{}, needProceed: map[string]bool{}, removed: map[string]int{},
 		firstTx: map[string][]byte{}, want: map[string][]byte{}, gated: true, firing: map[string]bool{},
-		entQ: map[int][]int{}, lastWoken: map[string]int{}, callerEnt: map[string]int{}}
+		entQ: map[int][]int{}, lastWoken: map[string]int{}, callerEnt: map[string]int{}, closeIn: map[string]bool{}}
 	n := len(cfg.Xid)
 	s.started, s.retd, s.ctxDone, s.ncalls = make([]bool, n), make([]bool, n), make([]bool, n), make([]int, n)
 	return s
@@ -74,7 +74,7 @@ func (s *Sim) follow(steps []step) (followed int, diverged string) {
 			}
 			s.start(st.int(1)) // a second Start of a caller that has returned is its next call ("Again" in the model)
 		case "Again":
-			if !s.retd[st.int(1)-1] {
+			if s.started[st.int(1)-1] && !s.retd[st.int(1)-1] {
 				return i, "Again: the previous call has not returned"
 			}
 		case "Fire", "FireFail":
@@ -88,7 +88,10 @@ func (s *Sim) follow(steps []step) (followed int, diverged string) {
 				s.conn.mu.Unlock()
 			}
 			if !s.fire(c) {
-				return i, "Fire: this client has no one-shot call"
+				// this client has no one-shot call (nclient6): the step touches nothing the other steps depend on - skipped
+				s.conn.mu.Lock()
+				delete(s.conn.failNext, "c"+strconv.Itoa(c))
+				s.conn.mu.Unlock()
 			}
 		case "SendLock", "Transmit", "TransmitFail", "Proceed", "CancelDone", "CancelLock":
 			role := "c" + strconv.Itoa(st.int(1))
@@ -106,6 +109,11 @@ func (s *Sim) follow(steps []step) (followed int, diverged string) {
 				return i, "LoopLock: loop parked at " + s.parkedAt("loop")
 			}
 			s.release("loop")
+		case "LoopReadErr":
+			if s.loopExited || s.closeState != "" {
+				return i, "LoopReadErr: the loop is gone"
+			}
+			s.readFault()
 		case "CloseStart":
 			s.closeStart()
 		case "CloseDone":
@@ -188,6 +196,16 @@ func (s *Sim) randomRun(ndgram int, urgent bool, wantClose, wantCtx bool) {
 		if s.cfg.WFault && s.rng.Intn(6) == 0 {
 			ch = append(ch, choice{"link", 0}) // the link goes down / comes back
 		}
+		if s.cfg.RFault && s.readFaults == 0 && !s.loopExited && s.closeState == "" && s.rng.Intn(10) == 0 {
+			ch = append(ch, choice{"readfault", 0}) // the network pushes back on the receive side
+		}
+		if wantClose || s.rng.Intn(8) == 0 {
+			for _, r := range s.releasableRoles() {
+				if r != "loop" && r != "closer" && s.canCloseFrom(r) {
+					ch = append(ch, choice{"closefrom:" + r, 0}) // a matcher that shuts the client down
+				}
+			}
+		}
 		internal := len(s.releasableRoles()) > 0
 		if !urgent || !internal {
 			if !s.allReturned() || injected < ndgram {
@@ -229,6 +247,10 @@ func (s *Sim) randomRun(ndgram int, urgent bool, wantClose, wantCtx bool) {
 			for k := 30 + s.rng.Intn(300); k > 0 && s.crashed == ""; k-- {
 				s.tick()
 			}
+		case c.kind == "readfault":
+			s.readFault()
+		case strings.HasPrefix(c.kind, "closefrom:"):
+			s.closeFrom(c.kind[len("closefrom:"):])
 		case c.kind == "link":
 			s.conn.mu.Lock()
 			s.conn.down = !s.conn.down
@@ -382,6 +404,43 @@ func (s *Sim) streamRun() {
 	}
 }
 
+// closeFromRun (C11): a matcher that has seen enough shuts the client down from inside the call (a datagram of the given
+// kind is what it sees), while other calls are in flight; Close returns, and so does every call.
+func (s *Sim) closeFromRun(kind string) {
+	for c := range s.cfg.Xid {
+		s.start(c + 1)
+	}
+	injected := false
+	for step := 0; step < 2000; step++ {
+		if s.canCloseFrom("c1") {
+			s.closeFrom("c1")
+			return
+		}
+		rs := s.releasableRoles()
+		if !injected && s.parkedAt("c1") == "" && s.callerEnt["c1"] > 0 && len(s.firstTx["c1"]) > 0 {
+			injected = true
+			s.inject(s.cfg.Xid[0], kind)
+			continue
+		}
+		if len(rs) == 0 {
+			if injected {
+				return // the call went another way (its timer won): nothing to do
+			}
+			s.tick()
+			continue
+		}
+		// callers first, the loop when nobody else can run (so that c1 reaches its wait before the datagram is read)
+		pick := rs[0]
+		for _, r := range rs {
+			if r != "loop" {
+				pick = r
+				break
+			}
+		}
+		s.release(pick)
+	}
+}
+
 type schedule struct {
 	Cfg   Cfg    `json:"cfg"`
 	Steps []step `json:"steps"`
@@ -439,6 +498,39 @@ func TestSim(t *testing.T) {
 					id, len(stuck), strings.Join(stuck, "\n\n"))
 				os.Exit(3)
 			}
+			// a client goroutine that keeps running without ever blocking or reaching a hook (a receive loop that spins on the
+			// error of its closed connection) keeps the bubble from settling: seen as runnable in two snapshots a second apart
+			spinning := func(dump string) map[string]bool {
+				out := map[string]bool{}
+				for _, g := range strings.Split(dump, "\n\n") {
+					head, _, _ := strings.Cut(g, "\n")
+					if (strings.Contains(head, "[running") || strings.Contains(head, "[runnable")) &&
+						(strings.Contains(g, "nclient4.(*Client)") || strings.Contains(g, "nclient6.(*Client)")) {
+						for _, ln := range strings.Split(g, "\n") {
+							if strings.Contains(ln, "nclient4.(*Client)") || strings.Contains(ln, "nclient6.(*Client)") {
+								out[strings.TrimSpace(strings.SplitN(ln, "(0x", 2)[0])] = true
+								break
+							}
+						}
+					}
+				}
+				return out
+			}
+			first := spinning(string(buf))
+			time.Sleep(time.Second)
+			buf2 := make([]byte, 1<<20)
+			buf2 = buf2[:runtime.Stack(buf2, true)]
+			var both []string
+			for fn := range spinning(string(buf2)) {
+				if first[fn] {
+					both = append(both, fn)
+				}
+			}
+			if len(both) > 0 {
+				fmt.Printf("deadlock: (livelock) no event for 60 s of real time in sim %d while client goroutines keep running without blocking: %s\n%s\n",
+					id, strings.Join(both, ", "), buf2)
+				os.Exit(3)
+			}
 			fmt.Printf("harness stuck: no event for 60 s of real time in sim %d and no client goroutine waits for a mutex\n%s\n", id, buf)
 			os.Exit(4)
 		}
@@ -452,6 +544,7 @@ func TestSim(t *testing.T) {
 		cfg.Dest = int((uint64(myid)*2654435761)>>5) % 4     // the properties hold for every destination
 		cfg.BigReq = []int{0, 0, 0, 700, 1300, 1600, 4000, 0}[(uint64(myid)*2654435761)>>25%8] // ... and whatever the size of the request
 		cfg.Raw = cfg.V4 && (uint64(myid)*2654435761)>>21%3 == 0 // ... and on the raw-socket layer as well as on a UDP socket
+		cfg.ReadErrKind = int((uint64(myid)*2654435761)>>29) % 12 // ... and whatever error the connection reports from a read
 		cfg.Log = int((uint64(myid)*2654435761)>>9) % 4 // the properties hold for every client configuration, logging options included
 		synctest.Test(t, func(t *testing.T) {
 			s := newSim(cfg, seed*1000003+int64(myid))
@@ -495,6 +588,7 @@ func TestSim(t *testing.T) {
 					stats["tlc_steps_followed"] += n
 					if why != "" {
 						stats["tlc_diverged"]++
+						stats["tlc_diverged: "+strings.SplitN(why, ":", 2)[0]]++
 					}
 				})
 			}
@@ -526,8 +620,15 @@ func TestSim(t *testing.T) {
 		cfg.Urgent = urgent
 		cfg.Mode = "random"
 		cfg.WFault = rng.Intn(3) == 0
+		cfg.RFault = (uint64(i)*2654435761)>>7%4 == 0
 		if mode == "c11" {
 			cfg.Tries = []int{0, 1, 2, 3, 4, -1, 0, 1, 2, 3, 4, -1, -2, -7}[rng.Intn(14)] // any negative count retries until cancelled
+		}
+		if (uint64(i)*2654435761)>>11%9 == 0 {
+			cfg.T = 0 // a zero timeout is honoured: the tries follow each other at once (only a finite number of them ends)
+			if cfg.Tries < 0 {
+				cfg.Tries = 2
+			}
 		}
 		nd := rng.Intn(9)
 		if cfg.BufCap == 1 && rng.Intn(2) == 0 {
@@ -539,7 +640,7 @@ func TestSim(t *testing.T) {
 	// (2b) C11 / C12: the retransmission grid and endless streams of rejected datagrams
 	if mode == "c11" {
 		for _, v4 := range []bool{true, false} {
-			for _, T := range []int{1, 2, 5} {
+			for _, T := range []int{0, 1, 2, 5} {
 				for n := -2; n <= 6; n++ {
 					kmax := n
 					if n < 0 {
@@ -547,6 +648,12 @@ func TestSim(t *testing.T) {
 					}
 					if n == -2 && T != 1 {
 						continue
+					}
+					if T == 0 && (n < 0 || n > 3) {
+						continue // zero timeout: the n transmissions leave at once (a negative count would never let time pass)
+					}
+					if T == 0 {
+						kmax = 0
 					}
 					for k := 0; k <= kmax; k++ {
 						for where := 0; where < 3; where++ {
@@ -606,6 +713,16 @@ func TestSim(t *testing.T) {
 					}
 				}
 			}
+			for _, kind := range []string{"good", "rej"} {
+				for _, xs := range [][]int{{7}, {7, 8, 8}} {
+					for _, bc := range []int{1, 5} {
+						cfg := Cfg{T: 2, Tries: 2, BufCap: bc, V4: v4, Timed: true, Urgent: true, Mode: "closefrom", Xid: xs}
+						kk := kind
+						runOne(cfg, "closefrom", func(s *Sim) { s.closeFromRun(kk) })
+						stats["closefrom_runs"]++
+					}
+				}
+			}
 			for i := 0; i < 6; i++ {
 				cfg := Cfg{T: 1 + rng.Intn(3), Tries: []int{1, 2, 3, 4, -1, -3}[rng.Intn(6)], BufCap: []int{1, 5}[rng.Intn(2)], V4: v4, Timed: true, Urgent: true,
 					Mode: "stream", Xid: [][]int{{7}, {7, 8}, {7, 7}}[rng.Intn(3)]}
@@ -624,6 +741,7 @@ func TestSim(t *testing.T) {
 		runOne(cfg, "free", func(s *Sim) { s.freeRun() })
 		stats["free_runs"]++
 	}
+	stats["close_from_matcher"], stats["read_faults"] = int(nCloseFrom.Load()), int(nReadFault.Load())
 	sb, _ := json.Marshal(stats)
 	os.WriteFile(outPath+".stats", sb, 0o644)
 }
